@@ -1032,6 +1032,9 @@ impl Parser {
                 return Err(RuleSyntaxError::UnknownCharacter(self.curr_tkn.value.chars().next().unwrap(), self.group, self.line, self.pos))
             } else if inp_term.is_empty() && !self.expect(TokenKind::Comma) {
                 break;
+            } else if inp_term.is_empty() {
+                // `a, , b > c`
+                return Err(RuleSyntaxError::EmptyInput(self.group, self.line, self.curr_tkn.position.start))
             }
             
             if let TokenKind::Diacritic(_) = self.curr_tkn.kind {
@@ -1080,6 +1083,9 @@ impl Parser {
                 return Err(RuleSyntaxError::EmptyOutput(self.group, self.line, self.token_list[self.pos].position.start))
             } else if out_term.is_empty() && !self.expect(TokenKind::Comma) {
                 break;
+            } else if out_term.is_empty() {
+                // `a > b, , c`
+                return Err(RuleSyntaxError::EmptyOutput(self.group, self.line, self.curr_tkn.position.start))
             }
 
             if let TokenKind::Diacritic(_) = self.curr_tkn.kind {
